@@ -301,7 +301,9 @@ fn main() {
     let mut id = 0u64;
     match mode.as_str() {
         "rand" => {
-            let names = ["a", "b", "c"];
+            // "ab" is a string-prefix sibling of "a" and "\u{e9}" a multi-byte name: component-wise vs string-wise and
+            // byte- vs character-offset mistakes need exactly such names
+            let names = ["a", "b", "ab", "\u{e9}"];
             for h in 0..n {
                 if h % workers != worker {
                     continue;
